@@ -17,7 +17,7 @@ pub fn run(f: &[&str]) -> Option<String> {
     match (f[0], f.len()) {
         ("stm", 2) => Some(asset(f[1], |b| cls(physis::stm::StainingTemplate::from_existing(b)))),
         ("avfx", 2) => Some(asset(f[1], |b| cls(physis::avfx::Avfx::from_existing(b)))),
-        ("sklb", 2) => Some(asset(f[1], |b| okc(physis::skeleton::Skeleton::from_existing(b)))),
+        ("sklb", 2) => Some(asset(f[1], |b| cls(physis::skeleton::Skeleton::from_existing(b)))),
         ("lgb", 2) => Some(asset(f[1], |b| cls(physis::layer::LayerGroup::from_existing(b)))),
         ("dic", 2) => Some(asset(f[1], |b| okc(physis::dic::Dictionary::from_existing(b)))),
         _ => None,
@@ -376,6 +376,441 @@ fn havok_file(bones: usize, variant: u32, rng: &mut Rng) -> Vec<u8> {
     }
     o.extend(pint(7)); // FileEnd
     o
+}
+
+// ------------------------------------------------------------------------------------------
+// Havok tag files, directed: one file per former panic / abort site of the reader (fixes C18-70..78;
+// the same constructions as `lib/c18b_havok_witness.py`, which wrote `corpus/C18/hvk-fx-*.case`)
+// ------------------------------------------------------------------------------------------
+
+fn hk_sig() -> Vec<u8> {
+    let mut o = vec![];
+    o.extend_from_slice(&0xCAB0_0D1Eu32.to_le_bytes());
+    o.extend_from_slice(&0xD011_FACEu32.to_le_bytes());
+    o
+}
+
+fn hk_head() -> Vec<u8> {
+    let mut o = hk_sig();
+    o.extend(pint(1));
+    o.extend(pint(3));
+    o
+}
+
+fn cat(parts: &[&[u8]]) -> Vec<u8> {
+    parts.iter().flat_map(|p| p.iter().copied()).collect()
+}
+
+/// types 1 NamedVariant, 2 RootLevelContainer, 3 hkaBone, 4 hkaSkeleton, 5 hkaAnimationContainer
+fn hk_std_types(pose_type: i32, skeletons_type: i32) -> Vec<u8> {
+    let mut o = htype(
+        "hkRootLevelContainerNamedVariant",
+        0,
+        &[("name", 10, None), ("className", 10, None), ("variant", 8, Some("hkReferencedObject"))],
+    );
+    o.extend(htype("hkRootLevelContainer", 0, &[("namedVariants", 0x19, Some("hkRootLevelContainerNamedVariant"))]));
+    o.extend(htype("hkaBone", 0, &[("name", 10, None), ("lockTranslation", 1, None)]));
+    o.extend(htype(
+        "hkaSkeleton",
+        0,
+        &[("name", 10, None), ("bones", 0x19, Some("hkaBone")), ("parentIndices", 0x12, None), ("referencePose", pose_type, None)],
+    ));
+    o.extend(htype(
+        "hkaAnimationContainer",
+        0,
+        &[
+            if skeletons_type == 0x18 { ("skeletons", 0x18, Some("hkaSkeleton")) } else { ("skeletons", skeletons_type, None) },
+            ("bindings", 0x18, Some("hkaAnimationBinding")),
+        ],
+    ));
+    o
+}
+
+/// object 1 (root container, one variant of class `class`) and object 2 (container with `skels`)
+fn hk_root_objs(class: &str, skels: &[i32], bindings: &[i32]) -> Vec<u8> {
+    let mut o = cat(&[&pint(4), &pint(2), &[0x01], &pint(1), &[0x07], &hstr("Merged Animation Container"), &hstr(class), &pint(2)]);
+    o.extend(cat(&[&pint(4), &pint(5), &[0x03], &pint(skels.len() as i32)]));
+    for s in skels {
+        o.extend(pint(*s));
+    }
+    o.extend(pint(bindings.len() as i32));
+    for b in bindings {
+        o.extend(pint(*b));
+    }
+    o
+}
+
+fn hk_skel_obj(names: usize, parents: usize, poses: usize, floats_per_pose: usize) -> Vec<u8> {
+    let mut o = cat(&[&pint(4), &pint(4), &[0x0f], &hstr("skeleton"), &pint(names as i32), &[0x01]]);
+    for i in 0..names {
+        o.extend(hstr(&format!("n_bone{}", i)));
+    }
+    o.extend(pint(parents as i32));
+    o.extend(pint(4));
+    for i in 0..parents {
+        o.extend(pint(i as i32 - 1));
+    }
+    o.extend(pint(poses as i32));
+    for _ in 0..poses {
+        for k in 0..floats_per_pose {
+            o.extend_from_slice(&(k as f32 * 0.25).to_le_bytes());
+        }
+    }
+    o
+}
+
+fn hk_valid(bones: usize) -> Vec<u8> {
+    cat(&[&hk_head(), &hk_std_types(0x16, 0x18), &hk_root_objs("hkaAnimationContainer", &[3], &[]), &hk_skel_obj(bones, bones, bones, 12), &pint(7)])
+}
+
+/// the valid two-bone file with more types (index 6..) and more objects behind the skeleton
+fn hk_valid_plus(types: &[u8], objs: &[u8]) -> Vec<u8> {
+    cat(&[&hk_head(), &hk_std_types(0x16, 0x18), types, &hk_root_objs("hkaAnimationContainer", &[3], &[]), &hk_skel_obj(2, 2, 2, 12), objs, &pint(7)])
+}
+
+fn hk_binding_file(blend: i32, anim_class: &str, duration_type: i32) -> Vec<u8> {
+    let mut t = hk_std_types(0x16, 0x18);
+    t.extend(htype(
+        "hkaAnimationBinding",
+        0,
+        &[("transformTrackToBoneIndices", 0x12, None), ("blendHint", 2, None), ("animation", 8, Some("hkaAnimation"))],
+    ));
+    t.extend(htype(
+        anim_class,
+        0,
+        &[
+            ("duration", duration_type, None),
+            ("numberOfTransformTracks", 2, None),
+            ("numFrames", 2, None),
+            ("numBlocks", 2, None),
+            ("maxFramesPerBlock", 2, None),
+            ("maskAndQuantizationSize", 2, None),
+            ("blockInverseDuration", 3, None),
+            ("frameDuration", 3, None),
+            ("blockOffsets", 0x12, None),
+            ("data", 0x11, None),
+        ],
+    ));
+    let mut o = hk_root_objs("hkaAnimationContainer", &[3], &[4]);
+    o.extend(hk_skel_obj(1, 1, 1, 12));
+    o.extend(cat(&[&pint(4), &pint(6), &[0x07], &pint(2), &pint(4), &pint(0), &pint(1), &pint(blend), &pint(5)]));
+    o.extend(cat(&[&pint(4), &pint(7), &[0xff, 0x03]]));
+    if duration_type == 3 {
+        o.extend_from_slice(&1.0f32.to_le_bytes());
+    } else {
+        o.extend(pint(1));
+    }
+    for v in [2, 3, 1, 256, 8] {
+        o.extend(pint(v));
+    }
+    o.extend_from_slice(&0.5f32.to_le_bytes());
+    o.extend_from_slice(&0.033f32.to_le_bytes());
+    o.extend(cat(&[&pint(1), &pint(4), &pint(0), &pint(4), &[9, 8, 7, 6]]));
+    cat(&[&hk_head(), &t, &o, &pint(7)])
+}
+
+fn hk_nesting(k: usize) -> Vec<u8> {
+    let t = htype("a", 0, &[("v", 0x19, Some("a"))]);
+    let o = cat(&[&pint(4), &pint(6), &[0x01], &pint(0), &vec![0x01u8; k], &[0x00]]);
+    hk_valid_plus(&t, &o)
+}
+
+/// `l * (1 + k)` struct elements without member data in an unrelated object; the byte array behind them
+/// makes the tag file `slack` bytes longer than its number of struct elements
+fn hk_elements(k: usize, l: usize, slack: i64) -> Option<Vec<u8>> {
+    let names: Vec<String> = (0..k).map(|i| format!("m{}", i)).collect();
+    let ms: Vec<(&str, i32, Option<&str>)> = names.iter().map(|n| (n.as_str(), 9, Some("e"))).collect();
+    let t = cat(&[&htype("e", 0, &[]), &htype("b", 0, &ms), &htype("a", 0, &[("v", 0x19, Some("b")), ("pad", 0x11, None)])]);
+    let total = (1 + 2 + l * (1 + k)) as i64;
+    let bits: Vec<u8> = (0..k.div_ceil(8)).map(|i| if (i + 1) * 8 <= k { 0xffu8 } else { (1u8 << (k % 8)) - 1 }).collect();
+    for pad in 0..6000usize {
+        let o = cat(&[&pint(4), &pint(8), &[0x03], &pint(l as i32), &bits, &pint(pad as i32), &vec![0u8; pad]]);
+        let v = hk_valid_plus(&t, &o);
+        if v.len() as i64 == total + slack {
+            return Some(v);
+        }
+    }
+    None
+}
+
+fn hk_type_chain(n: usize) -> Vec<u8> {
+    let mut v = hk_head();
+    v.extend(htype("a", 0, &[]));
+    for i in 1..n {
+        v.extend(cat(&[&pint(2), &pint(-2), &pint(0), &pint(i as i32), &pint(0)]));
+    }
+    v.extend(cat(&[&pint(4), &pint(n as i32), &pint(7)]));
+    v
+}
+
+fn hk_object_chain(n: usize) -> Vec<u8> {
+    let mut v = hk_head();
+    v.extend(htype("a", 0, &[("p", 8, Some("a"))]));
+    v.extend(cat(&[&pint(4), &pint(1), &[0x00]]));
+    for k in 1..n {
+        v.extend(cat(&[&pint(4), &pint(1), &[0x01], &pint(k as i32)]));
+    }
+    v.extend(pint(7));
+    v
+}
+
+/// (tag files, without the SKLB header)
+fn havok_directed(thorough: bool) -> Vec<Vec<u8>> {
+    let head = hk_head();
+    let sig = hk_sig();
+    let std = hk_std_types(0x16, 0x18);
+    let valid = hk_valid(2);
+    let ty = |name: &str, parent: i32, ms: &[(&str, i32, Option<&str>)]| htype(name, parent, ms);
+    let one = |t: Vec<u8>, obj: &[u8]| cat(&[&head, &t, obj]);
+    let f1 = 1.0f32.to_le_bytes();
+    let i = valid.windows(5).position(|w| w == b"hkRoo").unwrap();
+    let mut v: Vec<Vec<u8>> = vec![
+        // 70: the data ends early
+        valid[..9].to_vec(),
+        valid[..i + 5].to_vec(),
+        valid[..valid.len() - 3].to_vec(),
+        sig[..6].to_vec(),
+        // 71: packed integers
+        cat(&[&sig, &pint(1), &[0x86, 0x80, 0x80, 0x80, 0x80, 0x80, 0x00]]),
+        cat(&[&sig, &pint(1), &[0x81, 0x80, 0x80, 0x80, 0x10]]),
+        cat(&[&sig, &pint(1), &[0x86, 0x80, 0x80, 0x80, 0x0f], &valid[10..]]), // five bytes, high bits lost: version 3 again
+        // 72: tag dispatch
+        cat(&[&0xCAB0_0D1Eu32.to_le_bytes(), &0xD011_FACFu32.to_le_bytes(), &valid[8..]]),
+        cat(&[&head, &pint(9)]),
+        cat(&[&head, &pint(5)]),
+        cat(&[&head, &pint(3)]),
+        cat(&[&head, &pint(6)]),
+        cat(&[&head, &pint(0)]),
+        cat(&[&head, &pint(-1)]),
+        cat(&[&head, &pint(255)]),
+        cat(&[&head, &pint(256 + 7)]), // `as u8`: FileEnd
+        cat(&[&sig, &pint(1), &pint(2), &valid[10..]]),
+        cat(&[&sig, &pint(1), &pint(256 + 3), &valid[10..]]), // `as u8`: version 3
+        cat(&[&head, &pint(7)]),
+        cat(&[&sig, &valid[10..]]), // no FileInfo: object indices shift by one
+        cat(&[&head, &pint(1), &pint(3), &valid[10..]]), // FileInfo twice
+        // 73: remembered indices
+        cat(&[&head, &pint(2), &pint(-9)]),
+        cat(&[&head, &pint(2), &[0x80, 0x80, 0x80, 0x80, 0x10]]),
+        cat(&[&head, &pint(2), &pint(2), &[0xc3, 0x28]]),
+        one(ty("a", 7, &[]), &[]),
+        one(ty("a", -1, &[]), &[]),
+        one(ty("a", 0, &[("m", 0x40, None)]), &[]),
+        one(ty("a", 0, &[("m", -1, None)]), &[]),
+        cat(&[&head, &pint(2), &hstr("a"), &pint(0), &pint(0), &pint(1000), &[0u8; 8]]),
+        cat(&[&head, &pint(2), &hstr("a"), &pint(0), &pint(0), &pint(-5), &pint(7)]), // negative count: no members
+        cat(&[&head, &std, &pint(4), &pint(77)]),
+        cat(&[&head, &std, &pint(4), &pint(-1)]),
+        cat(&[&head, &std, &hk_root_objs("hkaAnimationContainer", &[9], &[]), &hk_skel_obj(1, 1, 1, 12), &pint(7)]),
+        cat(&[&head, &std, &hk_root_objs("hkaAnimationContainer", &[-3], &[]), &hk_skel_obj(1, 1, 1, 12), &pint(7)]),
+        cat(&[&head, &std, &pint(4), &pint(2), &[0x01], &pint(1), &[0x07], &hstr("x"), &hstr("y"), &pint(55), &pint(7)]),
+        // 74: member kinds without code, lengths
+        one(ty("a", 0, &[("t", 0x22, None)]), &cat(&[&pint(4), &pint(1), &[0x01], &pint(1)])),
+        one(ty("a", 0, &[("v", 4, None)]), &cat(&[&pint(4), &pint(1), &[0x01], &f1, &f1, &f1, &f1])),
+        one(ty("a", 0, &[("s", 9, Some("a"))]), &cat(&[&pint(4), &pint(1), &[0x00], &pint(7)])),
+        one(ty("a", 0, &[("s", 9, Some("a"))]), &cat(&[&pint(4), &pint(1), &[0x01], &pint(7)])),
+        one(ty("a", 0, &[("s", 0, None)]), &cat(&[&pint(4), &pint(1), &[0x01], &pint(7)])),
+        one(ty("a", 0, &[("s", 11, None)]), &cat(&[&pint(4), &pint(1), &[0x00], &pint(7)])),
+        one(ty("a", 0, &[("v", 0x10, None)]), &cat(&[&pint(4), &pint(1), &[0x01], &pint(0)])),
+        one(ty("a", 0, &[("v", 0x1b, None)]), &cat(&[&pint(4), &pint(1), &[0x01], &pint(0)])),
+        one(ty("a", 0, &[("v", 0x11, None)]), &cat(&[&pint(4), &pint(1), &[0x01], &pint(-1)])),
+        one(ty("a", 0, &[("v", 0x11, None)]), &cat(&[&pint(4), &pint(1), &[0x01], &pint(1 << 30)])),
+        one(ty("a", 0, &[("v", 0x11, None)]), &cat(&[&pint(4), &pint(1), &[0x01], &pint(3), &[1, 2, 3]])), // exactly as many as left
+        one(ty("a", 0, &[("v", 0x11, None)]), &cat(&[&pint(4), &pint(1), &[0x01], &pint(4), &[1, 2, 3]])),
+        one(ty("a", 0, &[("v", 0x19, Some("nope"))]), &cat(&[&pint(4), &pint(1), &[0x01], &pint(0)])),
+        cat(&[&head, &ty("e", 0, &[("t", 0x22, None)]), &ty("a", 0, &[("v", 0x19, Some("e"))]), &pint(4), &pint(2), &[0x01], &pint(1), &[0x01]]),
+        // 75: extraction
+        cat(&[&head, &std, &hk_root_objs("hkaOther", &[], &[]), &pint(7)]),
+        cat(&[&head, &std, &pint(4), &pint(3), &[0x00], &pint(7)]),
+        cat(&[&head, &std, &hk_root_objs("hkaAnimationContainer", &[], &[]), &pint(7)]),
+        cat(&[&head, &std, &hk_root_objs("hkaAnimationContainer", &[3], &[]), &pint(4), &pint(4), &[0x0f], &hstr("skeleton"), &pint(1), &[0x00], &pint(0), &pint(4), &pint(0), &pint(7)]),
+        cat(&[&head, &std, &hk_root_objs("hkaAnimationContainer", &[3], &[]), &hk_skel_obj(2, 1, 2, 12), &pint(7)]),
+        cat(&[&head, &std, &hk_root_objs("hkaAnimationContainer", &[3], &[]), &hk_skel_obj(2, 2, 1, 12), &pint(7)]),
+        cat(&[&head, &std, &hk_root_objs("hkaAnimationContainer", &[3], &[]), &hk_skel_obj(0, 0, 0, 12), &pint(7)]),
+        cat(&[&head, &std, &hk_root_objs("hkaAnimationContainer", &[3], &[]), &hk_skel_obj(1, 3, 2, 12), &pint(7)]),
+        cat(&[&head, &hk_std_types(0x14, 0x18), &hk_root_objs("hkaAnimationContainer", &[3], &[]), &hk_skel_obj(1, 1, 1, 4), &pint(7)]),
+        cat(&[&head, &hk_std_types(0x17, 0x18), &hk_root_objs("hkaAnimationContainer", &[3], &[]), &hk_skel_obj(1, 1, 1, 16), &pint(7)]),
+        cat(&[&head, &hk_std_types(0x16, 2), &pint(4), &pint(2), &[0x01], &pint(1), &[0x07], &hstr("x"), &hstr("hkaAnimationContainer"), &pint(2), &pint(4), &pint(5), &[0x03], &pint(5), &pint(0), &pint(7)]),
+        cat(&[&head, &std, &hk_root_objs("hkaAnimationContainer", &[3, 3], &[]), &hk_skel_obj(1, 1, 1, 12), &pint(7)]),
+        cat(&[&head, &std, &hk_root_objs("hkaAnimationContainer", &[2], &[]), &hk_skel_obj(1, 1, 1, 12), &pint(7)]), // a container as a skeleton
+        cat(&[&head, &std, &hk_root_objs("hkaAnimationContainer", &[0], &[]), &hk_skel_obj(1, 1, 1, 12), &pint(7)]), // the placeholder object
+        hk_binding_file(1, "hkaSplineCompressedAnimation", 3),
+        hk_binding_file(0, "hkaSplineCompressedAnimation", 3),
+        hk_binding_file(2, "hkaSplineCompressedAnimation", 3),
+        hk_binding_file(256, "hkaSplineCompressedAnimation", 3),
+        hk_binding_file(1, "hkaInterleavedUncompressedAnimation", 3),
+        hk_binding_file(1, "hkaSplineCompressedAnimation", 2),
+        // 76: struct arrays
+        hk_nesting(0),
+        hk_nesting(31),
+        hk_nesting(32),
+        hk_nesting(33),
+        hk_nesting(34),
+        hk_nesting(300),
+    ];
+    for (k, l) in [(7usize, 100usize), (1, 40), (20, 9)] {
+        for slack in [-2i64, -1, 0, 1] {
+            if let Some(f) = hk_elements(k, l, slack) {
+                v.push(f);
+            }
+        }
+    }
+    if thorough {
+        // the large ones (the default sizes are in the corpus and replayed on every run)
+        v.push(hk_nesting(90_000));
+        v.push(hk_type_chain(140_000));
+        v.push(hk_object_chain(160_000));
+        if let Some(f) = hk_elements(200, 1000, -1) {
+            v.push(f);
+        }
+    }
+    v
+}
+
+// random, mostly valid tag files: the valid two-bone skeleton plus random classes and objects
+
+struct HkClass {
+    /// (type bits, class index for struct / object members)
+    members: Vec<(i32, usize)>,
+}
+
+fn hk_value(rng: &mut Rng, classes: &[HkClass], ty: i32, cls: usize, n: usize, depth: usize, o: &mut Vec<u8>) {
+    // the elements of an array of `n` (or one scalar when `n == usize::MAX`)
+    let scalar = n == usize::MAX;
+    let count = if scalar { 1 } else { n };
+    match ty & 0x0f {
+        1 => o.extend(rng.bytes(count)),
+        2 => {
+            if !scalar {
+                o.extend(pint(4));
+            }
+            for _ in 0..count {
+                o.extend(pint(*rng.pick(&[0i32, 1, -1, 63, 64, -8192, 1 << 20, i32::MAX, -i32::MAX])));
+            }
+        }
+        3 => o.extend(rng.bytes(4 * count)),
+        4..=7 => o.extend(rng.bytes(4 * count * (4 * ((ty & 0x0f) as usize - 3)))),
+        8 => {
+            for _ in 0..count {
+                o.extend(pint(rng.below(4) as i32));
+            }
+        }
+        10 => {
+            for _ in 0..count {
+                if rng.chance(1, 3) {
+                    o.extend(pint(-(rng.range(0, 4) as i32)));
+                } else {
+                    o.extend(hstr(&format!("s{}", rng.below(50))));
+                }
+            }
+        }
+        9 => {
+            let c = &classes[cls];
+            let present: Vec<bool> = c.members.iter().map(|m| depth < 3 && m.0 & 0x20 == 0 && rng.chance(2, 3)).collect();
+            let mut bits = vec![0u8; c.members.len().div_ceil(8)];
+            for (i, p) in present.iter().enumerate() {
+                if *p {
+                    bits[i / 8] |= 1 << (i % 8);
+                }
+            }
+            o.extend(bits);
+            for (i, m) in c.members.iter().enumerate() {
+                if present[i] {
+                    hk_value(rng, classes, m.0, m.1, count, depth + 1, o);
+                }
+            }
+        }
+        _ => {}
+    }
+}
+
+fn havok_random(rng: &mut Rng) -> Vec<u8> {
+    let kinds = [1i32, 2, 3, 10, 8, 0x11, 0x12, 0x13, 0x14, 0x16, 0x17, 0x18, 0x19, 0x1a, 9, 0x19, 0x19];
+    let rare = [0i32, 4, 0x22, 0x2a, 0x10, 0x1b, 11, 0x31];
+    let ncls = rng.range(1, 4) as usize;
+    let mut classes: Vec<HkClass> = vec![];
+    let mut types = vec![];
+    for c in 0..ncls {
+        let nm = rng.range(0, 9) as usize;
+        let mut members = vec![];
+        let mut decl: Vec<(String, i32, Option<String>)> = vec![];
+        for m in 0..nm {
+            let ty = if rng.chance(1, 25) { *rng.pick(&rare) } else { *rng.pick(&kinds) };
+            let cls = if c == 0 { 0 } else { rng.below(c as u64) as usize };
+            let needs_class = (ty & 0x0f) == 8 || (ty & 0x0f) == 9;
+            // a struct member of the first class refers to the class itself (absent or empty below)
+            decl.push((format!("m{}", m), ty, if needs_class { Some(format!("c{}", cls)) } else { None }));
+            members.push((ty, cls));
+        }
+        let d: Vec<(&str, i32, Option<&str>)> = decl.iter().map(|(n, t, c)| (n.as_str(), *t, c.as_deref())).collect();
+        // parent: `object` or an earlier random class (inherited members are not filled in: kept member-less)
+        types.extend(htype(&format!("c{}", c), 0, &d));
+        classes.push(HkClass { members });
+    }
+    let mut objs = vec![];
+    for _ in 0..rng.range(1, 4) {
+        let c = rng.below(ncls as u64) as usize;
+        let cl = &classes[c];
+        objs.extend(pint(4));
+        objs.extend(pint(6 + c as i32));
+        let present: Vec<bool> = cl.members.iter().map(|m| {
+            let unimplemented = m.0 & 0x20 != 0 || matches!(m.0, 0 | 4..=7 | 9 | 11..=15) || matches!(m.0 & 0x1f, 0x10 | 0x1b..=0x1f);
+            if unimplemented { rng.chance(1, 6) } else { rng.chance(3, 4) }
+        }).collect();
+        let mut bits = vec![0u8; cl.members.len().div_ceil(8)];
+        for (i, p) in present.iter().enumerate() {
+            if *p {
+                bits[i / 8] |= 1 << (i % 8);
+            }
+        }
+        objs.extend(bits);
+        for (i, m) in cl.members.iter().enumerate() {
+            if present[i] {
+                if m.0 & 0x10 != 0 {
+                    let n = *rng.pick(&[0usize, 1, 2, 3, 7]);
+                    objs.extend(pint(n as i32));
+                    // a struct array of the class itself (first class) stays without columns
+                    hk_value(rng, &classes, m.0, m.1, n, if (m.0 & 0x0f) == 9 && m.1 >= c { 3 } else { 0 }, &mut objs);
+                } else {
+                    hk_value(rng, &classes, m.0, m.1, usize::MAX, 3, &mut objs);
+                }
+            }
+        }
+    }
+    hk_valid_plus(&types, &objs)
+}
+
+fn sklb_wrap(hk: &[u8], fields: bool) -> Seed {
+    let mut b = B::new(false);
+    b.u32(0x736B_6C62).u32(0x3133_3030).u32(36).u32(36).u32(0).u32(101).u32(0).u32(0).u32(0).bound();
+    b.raw(hk, fields).bound();
+    b.seed("sklb")
+}
+
+fn gen_havok(rng: &mut Rng, thorough: bool, out: &mut dyn Write) {
+    for (i, hk) in havok_directed(thorough).iter().enumerate() {
+        let s = sklb_wrap(hk, false);
+        if hk.len() <= 1200 && (thorough || i % 4 == 0) {
+            mutate(&s, rng, thorough, out);
+        } else {
+            emit(out, "sklb", &s.bytes, "");
+        }
+    }
+    for i in 0..(if thorough { 6000 } else { 500 }) {
+        let mut hk = havok_random(rng);
+        match i % 4 {
+            1 => {
+                let k = rng.below(hk.len() as u64) as usize;
+                hk[k] = *rng.pick(&[0u8, 1, 0x7f, 0x80, 0xff, hk[k] ^ 1, hk[k].wrapping_add(1)]);
+            }
+            2 => {
+                let k = rng.below(hk.len() as u64) as usize;
+                hk.truncate(k);
+            }
+            _ => {}
+        }
+        emit(out, "sklb", &sklb_wrap(&hk, false).bytes, "");
+    }
 }
 
 fn sklb_seeds(rng: &mut Rng) -> Vec<Seed> {
@@ -778,6 +1213,8 @@ pub fn generate(thorough: bool, seed: u64, out: &mut dyn Write) {
     for s in sklb_seeds(&mut rng) {
         mutate(&s, &mut rng, thorough, out);
     }
+    let mut hrng = Rng::new(seed, "C18-havok");
+    gen_havok(&mut hrng, thorough, out);
     for s in lgb_seeds(&mut rng) {
         mutate(&s, &mut rng, thorough, out);
     }
